@@ -38,6 +38,9 @@ A history is a JSON-serialisable plan (list of ops) + the database it runs in, s
                                               pushes, the blocked client is served (wake-up path); key a list: immediate BLPOP/BRPOP
   ["evalsha", script-hex, [arg-hex…]]         SCRIPT LOAD + EVALSHA sha 0 args…
   ["select", n]                               SELECT n on the observed connection
+  ["lua", "eval"|"evalsha", script-hex, numkeys, [arg-hex…], "direct"|"exec"]   a script as text or by hash (write-then-fail shapes included)
+  ["restart", save?, "kill9"|"term"]          stop the live server here and start a new one on the same directory (SAVE first or not)
+  ["hangup", key-hex, "L"|"R", [push arg-hex…], sleep-ms, gap-ms]   a blocked client hangs up while another connection pushes to its key
 """
 import hashlib
 
@@ -370,6 +373,26 @@ def gen_plan(r, profile, ks_only, n_ops, covered_only=False):
             plan.append(["select", r.choice(hop)])
         elif profile == "mixed" and not covered_only and r.chance(1, 40):
             plan.append(["select", r.range(0, 15)])
+        if not ks_only and not covered_only and r.chance(1, 14):
+            # scripts that write and then fail / return an error table (and some that succeed), as text and by hash, direct and in EXEC
+            which = r.below(5)
+            if which == 0:
+                script = b"redis.call('INCRBY', KEYS[1], ARGV[1]); redis.call('HSET', KEYS[2], 'last', ARGV[1]); redis.call('RPUSH', KEYS[3], ARGV[1]); return redis.call('GET', KEYS[1])"
+                args = [r.choice([b"cnt", b"k2"]), r.choice([b"h", b"k1"]), r.choice([b"l", b"k1", b"s", b"cnt"]), r.choice([b"5", b"7", b"abc"])]
+                nk = 3
+            elif which == 1:
+                script, nk, args = b"redis.call('SADD', KEYS[1], ARGV[1]); return {err='LIMIT reached'}", 1, [r.choice([b"s", b"s2", b"k1"]), r.choice([b"m1", b"m2"])]
+            elif which == 2:
+                script, nk, args = b"redis.call('SET', KEYS[1], ARGV[1]); error('boom')", 1, [r.choice([b"k1", b"k2", b"l"]), r.choice([b"v1", b"v2"])]
+            elif which == 3:
+                script, nk, args = b"redis.call('LPUSH', KEYS[1], ARGV[1]); return redis.pcall('INCR', KEYS[1])", 1, [r.choice([b"l", b"q2", b"k1"]), b"e"]
+            else:
+                script, nk, args = b"return redis.call('SET', KEYS[1], ARGV[1])", 1, [r.choice([b"k1", b"k2"]), r.choice([b"v1", b"v2"])]
+            plan.append(["lua", r.choice(["eval", "evalsha", "evalsha"]), hx(script), nk, [hx(a) for a in args], r.choice(["direct", "direct", "exec"])])
+        if profile in ("mixed", "blocking") and not covered_only and r.chance(1, 30):
+            key = r.choice([b"q", b"q2", b"hq"])
+            push = [r.choice([b"RPUSH", b"LPUSH"]), key] + [r.choice([b"a", b"b", b"c"]) for _ in range(r.range(1, 2))]
+            plan.append(["hangup", hx(key), r.choice(["L", "R"]), [hx(a) for a in push], r.choice([0, 40, 80, 80]), r.choice([0, 0, 0, 2])])
         if hop and r.chance(1, 8):
             # an entry of each special kind right after an entry of another database
             d1, d2 = r.choice(hop), r.choice(hop)
@@ -405,6 +428,9 @@ def gen_plan(r, profile, ks_only, n_ops, covered_only=False):
                 plan.append(["direct", [hx(a) for a in [b"SET", b"k1", b"other"]]])
                 plan.append(["select", d1])
                 plan.append(["bpop", hx(key), r.choice(["L", "R"]), [hx(a) for a in [b"RPUSH", key, b"z"]], "direct"])
+    if r.chance(1, 5):
+        # a restart somewhere in the history: the file is inherited by the new run
+        plan.insert(r.range(min(4, len(plan)), len(plan)), ["restart", r.chance(2, 3), r.choice(["kill9", "term"])])
     return plan
 
 
@@ -417,7 +443,7 @@ class Event:
         self.__dict__.update(kw)
 
     def name(self):
-        return self.raw[0].decode("latin-1").upper() if self.raw else ""
+        return self.raw[0].decode("latin-1").upper() if self.kind == "cmd" and self.raw else ""
 
     def inner(self):
         """the command that touches the dataset (inner command of the wrapper script)"""
@@ -430,6 +456,8 @@ class Event:
         return i[0].decode("latin-1").upper() if i else ""
 
     def json(self):
+        if self.kind == "restart":
+            return {"restart": {"dataset_back": self.dataset_back, "how": self.how}}
         if self.kind == "wake":
             return {"wake": [self.db, "L" if self.left else "R", hx(self.key), hx(self.value), "immediate" if self.immediate else "served"]}
         return {"cmd": [hx(a) for a in self.raw], "via_exec": self.via_exec, "reply": repr(self.reply)[:200]}
@@ -460,6 +488,11 @@ def spec_log(events, write_table, repairs, evalsha_db0=False):
         out.append(cmd)
 
     for e in events:
+        if e.kind == "restart":
+            # new connection (database 0); the engine inherits a non-empty file and does not know where its reader stands:
+            # the next entry is preceded by a SELECT whatever its database
+            conn_db, file_db = 0, None
+            continue
         if e.kind == "wake":
             # the pop made for a blocking client: at once (cause "blpop") or when the blocked client is served (cause "wake")
             if ("blpop" if e.immediate else "wake") in repairs:
@@ -527,6 +560,7 @@ class Runner:
         self.t0 = time.monotonic()
         self.n_live = 0
         self.policy = None
+        self.scripts = {}
         self.sabotage = os.environ.get("VERIF_C11_SABOTAGE", "")     # self-test of the violation path only
         self.evalsha_db0 = self.probe_evalsha_db()
         rep.extra["evalsha_runs_in_db0"] = self.evalsha_db0
@@ -617,6 +651,11 @@ class Runner:
     # ---- feeding the model
     def feed(self, e):
         now = self.now()
+        if e.kind == "restart":
+            if self.ask("restart") != "ok":
+                raise InternalError("drv_aof restart")
+            e.model_entries, e.model_cur, e.covered, e.in_model, e.entry_db = 0, 0, True, True, 0
+            return e
         if e.kind == "wake":
             a = self.ask("ev wake %d %d %s %s" % (e.db, now, "L" if e.left else "R", hx(e.key)))
         else:
@@ -635,6 +674,8 @@ class Runner:
         return e
 
     def event(self, raw, reply, via_exec=False, **kw):
+        if raw and raw[0].upper() == b"EVALSHA" and len(raw) > 1 and "script" not in kw and raw[1].lower() in self.scripts:
+            kw["script"] = self.scripts[raw[1].lower()]
         e = Event("cmd", raw=list(raw), reply=reply, via_exec=via_exec, **kw)
         self.events.append(self.feed(e))
         self.rep.evaluations += 1
@@ -681,11 +722,18 @@ class Runner:
                 script = unhx(op[1])
                 self.direct([b"SCRIPT", b"LOAD", script])
                 sha = hashlib.sha1(script).hexdigest().encode()
+                self.scripts[sha] = script
                 raw = [b"EVALSHA", sha, b"0"] + [unhx(a) for a in op[2]]
                 r = self.c.cmd(*raw)
                 self.event(raw, r, script=script)
             elif kind == "bpop":
                 self.do_bpop(unhx(op[1]), op[2] == "L", [unhx(a) for a in op[3]], op[4])
+            elif kind == "lua":
+                self.do_lua(op[1], unhx(op[2]), op[3], [unhx(a) for a in op[4]], op[5])
+            elif kind == "restart":
+                self.do_restart(op[1], op[2])
+            elif kind == "hangup":
+                self.do_hangup(unhx(op[1]), op[2] == "L", [unhx(a) for a in op[3]], op[4], op[5])
             else:
                 raise InternalError("unknown op %r" % (op,))
         self.check_every_command = False
@@ -715,6 +763,118 @@ class Runner:
                 self.db = int(c[1])         # a queued SELECT selects (and the selection stays after EXEC)
         if self.check_every_command:
             self.check_now("after EXEC")
+
+    def do_lua(self, mode, script, numkeys, args, via):
+        """a script sent as text (EVAL) or by its hash (SCRIPT LOAD + EVALSHA), directly or queued in MULTI/EXEC.  Scripts are not
+        rolled back: one that writes and then fails (a later redis.call is refused, error() is raised) or returns an error
+        table has changed the dataset, and must be in the file like any other"""
+        if mode == "evalsha":
+            self.direct([b"SCRIPT", b"LOAD", script])
+            sha = hashlib.sha1(script).hexdigest().encode()
+            self.scripts[sha] = script
+            raw = [b"EVALSHA", sha, b"%d" % numkeys] + args
+        else:
+            raw = [b"EVAL", script, b"%d" % numkeys] + args
+        if via == "exec":
+            self.do_exec([[b"SET", b"k2", b"tx"], raw])
+        else:
+            self.direct(raw)
+        r = self.events[-1].reply
+        self.rep.count("lua.%s.%s.%s" % (mode, via, "error-reply" if r is not None and r[0] == "e" else "ok"))
+        self.rep.nontrivial(("lua", mode, via, r is not None and r[0] == "e"))
+
+    def do_restart(self, save, how):
+        """stop the live server (SIGTERM or kill -9) at this point of the history and start a new one on the same directory, same
+        AOF settings.  Start-up does not replay the file (AofEngine::load executes nothing): the restarted server holds what it
+        loads from dump.rdb.  `save`: a SAVE right before, so that the dataset is back; if what it holds afterwards is not the
+        dataset it had (no SAVE, or the snapshot does not restore everything), the history goes on with a FLUSHALL — a logged
+        command that puts the live server and every reader of the file into the same (empty) state.  In both cases the
+        WHOLE file, both runs' entries, must replay to the live dataset at the end."""
+        dbs = dbs_of(self.events, self.db)
+        before = None
+        if save:
+            self.direct([b"SAVE"])
+            before = self.dump_live(dbs)
+        self.c.close()
+        d, policy = self.live.dir, self.policy
+        if how == "kill9":
+            self.live.kill9()
+        else:
+            self.live.p.terminate()
+            try:
+                self.live.p.wait(timeout=5)
+            except Exception:
+                self.live.kill9()
+        self.live.log.close()
+        if policy is None:
+            self.live = Server("c11-live%d" % self.n_live, appendonly=True, keep_dir=d)
+        else:
+            self.live = Server("c11-live%d" % self.n_live, appendonly=False, extra=["--config", os.path.join(d, "ferrous.conf")], keep_dir=d)
+        self.c = self.live.client()
+        self.db = 0
+        self.scripts = {}
+        after = self.dump_live(dbs)
+        back = before is not None and after == before
+        e = Event("restart", raw=[], reply=None, via_exec=False, dataset_back=back, how=how)
+        self.events.append(self.feed(e))
+        self.rep.count("restart-in-history.%s.%s" % (how, "dataset-back-from-snapshot" if back else ("snapshot-incomplete" if save else "no-snapshot")))
+        self.rep.nontrivial(("restart", how, save, back))
+        if not back:
+            self.direct([b"FLUSHALL"])
+        if self.check_every_command:
+            self.check_now("after the restart")
+
+    def do_hangup(self, key, left, push, sleep_ms, gap_ms):
+        """a client blocked in BLPOP/BRPOP hangs up while another connection pushes to the key, the two as close together as the
+        harness can make them (`sleep_ms` > 0: the server is first kept busy by SLEEP from a third connection, so that the
+        hang-up and the push are both waiting when its loop goes on).  Whatever the server does with the element — keeps it,
+        or pops it for the client that is gone — the file and the dataset must tell the same story."""
+        if self.direct([b"TYPE", key]).reply != ("s", b"none"):
+            return
+        bname = b"BLPOP" if left else b"BRPOP"
+        a = self.live.client()
+        pusher = self.live.client()
+        sleeper = self.live.client() if sleep_ms else None
+        try:
+            for c in (a, pusher):
+                if self.db != 0 and c.cmd("SELECT", str(self.db)) != ("s", b"OK"):
+                    raise InternalError("SELECT on a helper connection failed")
+            a.send(bname, key, b"0")
+            t_end = time.monotonic() + 20.0
+            while True:
+                reg = self.c.cmd("VERIF", "BLOCKED")
+                if reg[0] == "a" and any(x == ("b", key) for x in reg[1]):
+                    break
+                if time.monotonic() > t_end:
+                    raise InternalError("blocked client never appeared in VERIF BLOCKED")
+                time.sleep(0.003)
+            if sleeper is not None:
+                sleeper.send(b"SLEEP", b"%d" % sleep_ms)
+                time.sleep(0.01)
+            a.close()
+            if gap_ms:
+                time.sleep(gap_ms / 1000.0)
+            r = pusher.cmd(*push, timeout=10)
+            if sleeper is not None:
+                sleeper.read_reply(10)
+            # the push ran on another connection of the same database: for the log it is a command like any other
+            self.event(push, r)
+            time.sleep(0.02)
+            pushed = len(push) - 2 if r[0] == "i" else 0
+            n = self.direct([b"LLEN", key]).reply
+            left_over = n[1] if n[0] == "i" else 0
+            gone = pushed - left_over
+            self.rep.count("hangup.%s.%s" % ("busy-server" if sleep_ms else "idle-server", "element-popped-for-the-vanished-client" if gone > 0 else "element-kept"))
+            self.rep.nontrivial(("hangup", bool(sleep_ms), gap_ms, gone > 0))
+            for _ in range(max(0, gone)):
+                e = Event("wake", db=self.db, left=left, key=key, value=b"", immediate=False)
+                self.events.append(self.feed(e))
+            if self.check_every_command:
+                self.check_now("after a blocked client hung up during a push")
+        finally:
+            for c in (a, pusher, sleeper):
+                if c is not None:
+                    c.close()
 
     def do_bpop(self, key, left, push, via):
         t = self.direct([b"TYPE", key]).reply
@@ -1017,7 +1177,20 @@ def judge(R, plan, db, ks_only, fs, tag, check_every_command=False, policy="keep
         changed = e.model_entries >= 2
         rep.count("entry.%s.%s" % (kind, "db-differs-from-previous-entry" if changed else "same-db-as-previous-entry"))
         rep.nontrivial(("entry", kind, changed))
+    after_restart = False
     for e in events:
+        if e.kind == "restart":
+            after_restart = True
+            continue
+        if after_restart and e.model_entries > 0:
+            # the first entry of the new run: the engine does not know where a reader of the inherited file stands
+            prev = [x for x in events[:events.index(e)] if x.kind != "restart" and x.model_entries > 0]
+            rep.count("entry.first-after-restart.db-%s.previous-run-ended-in-db-%s" % ("0" if e.entry_db == 0 else "N", "none" if not prev else ("0" if prev[-1].entry_db == 0 else "N")))
+            rep.nontrivial(("first-after-restart", e.entry_db == 0, prev[-1].entry_db == 0 if prev else None, e.kind))
+            after_restart = False
+    for e in events:
+        if e.kind == "restart":
+            continue
         if e.kind == "wake":
             rep.count("path.%s" % ("blpop-immediate" if e.immediate else "wake"))
             rep.nontrivial(("wake", e.immediate, "L" if e.left else "R", e.db != 0))
@@ -1183,6 +1356,13 @@ def show_plan(plan):
             out.append("%s %s" % (op[0], " ".join(repr(unhx(a).decode("latin-1")) for a in op[1])))
         elif op[0] == "exec":
             out.append("exec [" + " ; ".join(" ".join(repr(unhx(a).decode("latin-1")) for a in c) for c in op[1]) + "]")
+        elif op[0] == "lua":
+            out.append("%s %r numkeys=%d %s via %s" % (op[1], unhx(op[2]).decode("latin-1"), op[3], " ".join(repr(unhx(a).decode("latin-1")) for a in op[4]), op[5]))
+        elif op[0] == "restart":
+            out.append("restart (%s, %s)" % ("SAVE first" if op[1] else "no snapshot", op[2]))
+        elif op[0] == "hangup":
+            out.append("hangup: client blocked in %s %r closes while another connection does %s (server kept busy %d ms, gap %d ms)"
+                       % ("BLPOP" if op[2] == "L" else "BRPOP", unhx(op[1]).decode("latin-1"), " ".join(repr(unhx(a).decode("latin-1")) for a in op[3]), op[4], op[5]))
         elif op[0] == "bpop":
             out.append("bpop %r %s push=%s via %s" % (unhx(op[1]).decode("latin-1"), op[2], " ".join(repr(unhx(a).decode("latin-1")) for a in op[3]), op[4]))
         else:
